@@ -70,6 +70,10 @@ func checkC10(c *Check) {
 				}
 				if r.dir == "r" {
 					g.decodedElementsKept(c, "bytes-twin/decoded-element-kept", name+"."+r.role+"(bytes)", b, bw)
+					// the variants hold equal content only if each stored value owns its storage: the temporary a
+					// decoded element is stored from is declared per iteration in both variants
+					g.freshTemporaries(c, "bytes-twin/decoded-value-independent", name+"."+r.role, a)
+					g.freshTemporaries(c, "bytes-twin/decoded-value-independent", name+"."+r.role+"(bytes)", b)
 				}
 				as, bs = normTwin(as), normTwin(bs)
 				d := fmt.Sprintf("%d lines", strings.Count(as, "\n")+1)
